@@ -149,6 +149,15 @@ impl Lock {
         self.m.advance(n, k, id, payload, seen, decode);
         let cell = format!("{}|{}|{}", sc, lc, seen_name);
         rep.count_n(&format!("cell:{}", cell), 1);
+        if rep.samples.len() < 5 && self.log.len() == 4 {
+            let log = self.log.clone();
+            rep.sample(5, || {
+                let mut o = J::obj();
+                o.set("history", J::Arr(log.iter().map(|(l, _)| J::bytes(l)).collect()));
+                o.set("last_line", J::s(&format!("model state '{}', line class '{}', observed {}", sc, lc, seen_name)));
+                o
+            });
+        }
         rep.class(cell);
         Step { state_class: sc, line_class: lc, seen: seen_name, violated }
     }
